@@ -18,6 +18,7 @@ func init() {
 			"R2": "engine mutex must-held at every membership write / seat-manager assign-remove / hand single action (frozen exception: table creation)",
 			"R3": "seat manager: writes under the write lock; lock idiom in every taker",
 			"R4": "no re-entrant acquisition on the same instance along synchronous call edges",
+			"R5": "the hand's current state is replaced synchronously by the caller that produced it (sole writer: the update function, unconditional, called as a plain call), so engine-mutex-serialised actions validate against the state left by the previous accepted action",
 		},
 		Assumptions: []string{"the engine is not shared before CreateTable returns (creation exception)", "sync.Mutex / sync.RWMutex semantics"},
 		Run:         checkC16,
@@ -27,6 +28,7 @@ func init() {
 
 func checkC16(c *Ctx) {
 	p := c.P
+	checkHandStateSync(c, "R5")
 	et := p.singleImpl("", "TableEngine")
 	smT := p.singleImpl("/seat_manager", "SeatManager")
 	if et == nil || smT == nil {
